@@ -398,6 +398,9 @@ def c20(res):
 
     outs = m6_attrs.run(res.tier)
     m6_attrs.classify(outs, res)
+    from . import traces
+
+    traces.classify_links(res, "C20")
     # structural behaviour of link classes (C01-C03 for SymlinkNode / SymlinkNodeMixin) comes from M1's symlink families
     m1 = m1_ops.run(res.tier, only=("ops-n3x",))
     for out in m1:
@@ -411,7 +414,8 @@ def c20(res):
     res.rule = ("TLC explores every state reachable from one (thorough: two) ordinary node(s) and two link nodes by: creating a link (target = any live node incl. another link, any parent, 3 keyword sets), "
                 "writing foo/bar/name on any live node, n.parent = v and n.children = [x] for all live n, v, x; invariants: a link reads what its target reads, links own nothing, the forest is well-formed; "
                 "every transition is a vector: the pre-state is rebuilt from real Node/AnyNode + SymlinkNode/SymlinkNodeMixin objects, the action performed, and every key of every node read back. "
-                "Plus the M1 mutator vectors (all fault plans) on the SymlinkNode and SymlinkNodeMixin families.")
+                "Plus the M1 mutator vectors (all fault plans) on the SymlinkNode and SymlinkNodeMixin families. Code -> spec: seeded histories on one live universe of 1-3 ordinary nodes (some with a "
+                "read-only property) and up to 8 links (links to links included): link constructors with keywords, attribute writes through any node, parent/children assignments; every step is validated by TLC (TraceAttrs).")
     res.distinct = sum(o["vectors"] for o in outs)
     res.exhaustive = True
     for line in itertools.islice(T.read_lines(outs[0]["tlc"]["lines_path"]), 3000, 3001):
@@ -428,10 +432,14 @@ def c19(res):
 
     outs = m6_clone.run(res.tier)
     m6_clone.classify(outs, res)
+    from . import traces
+
+    traces.classify_links(res, "C19")
     res.rule = ("TLC enumerates every ordered forest with up to MaxN nodes x class family (Node, AnyNode, user NodeMixin class, user LightNodeMixin class with __slots__, Node + SymlinkNode with up to 2 links whose "
                 "targets are nodes of the same tree, of another tree or other links) x entry node x method (deepcopy, pickle protocols 0-5; 2-5 for __slots__ classes); the expected state is the canonical copy CloneDef, "
                 "which TLC proves to satisfy the label-free predicate IsCopy (Thm_Clone). Replay: the copy is made, both structures are walked in lock-step to find the correspondence, every node of the original and the copy "
-                "is projected (parent, children, target, class, attribute), then the copy and the original are mutated and projected again.")
+                "is projected (parent, children, target, class, attribute), then the copy and the original are mutated and projected again. Code -> spec: in seeded histories of link/attribute/structure "
+                "calls on one live universe, whatever has been built is copied (deepcopy, pickle 0/2/4/5) from a random node, the copy extended below one of its leaves, and the observation validated by TLC (TraceClone).")
     res.distinct = sum(o["vectors"] for o in outs)
     res.exhaustive = True
     for line in itertools.islice(T.read_lines(outs[0]["tlc"]["lines_path"]), 700, 701):
